@@ -319,6 +319,31 @@ fn c10_readnbuf_pool() {
     kani::cover!(got == 1 && id == 3, "short first read into the last slot");
 }
 
+/// C13 c13.enc.read_pool_limited - read(pool.get().limit(n)): "same effect as read(2) for every buffer type".  A limited
+/// pool buffer must still be a buffer-select read from the pool's group (at most n bytes).
+/// KNOWN FINDING F17: LimitedBuf does not forward the hidden BufMut::parts, a zero-length read at address 0 is
+/// submitted and the call returns an empty buffer (findings/F17).
+#[kani::proof]
+#[kani::unwind(3)]
+fn c13_enc_read_pool_limited() {
+    let mut fp = FakePool::<P4, BS8>::new();
+    let mut ring = FakeSq::<1>::new(0, 0, 0);
+    let subs = subs_of(ring.shared(1, false, false));
+    let (afd, _n, _kind) = any_fd(&subs);
+    let gid: u16 = kani::any();
+    let pool = fp.pool(sq_from((*subs).clone()), gid);
+    let shared = std::sync::Arc::new(ManuallyDrop::into_inner(pool));
+    let _keep = ManuallyDrop::new(shared.clone());
+    let limit: usize = kani::any();
+    kani::assume(limit >= 1);
+    let mut buf = ManuallyDrop::new(crate::io::BufMut::limit(ReadBuf { shared, owned: None }, limit));
+    let mut off: u64 = kani::any();
+    let mut s = zero_sqe();
+    <ReadOp<crate::io::LimitedBuf<ReadBuf>> as FdOp>::fill_submission(&afd, &mut buf, &mut off, &mut s);
+    assert!(s.0.flags & libc::IOSQE_BUFFER_SELECT != 0 && unsafe { s.0.__bindgen_anon_4.buf_group } == gid, "limited pool buffer: still a buffer-select read from the pool's group");
+    kani::cover!(true, "end");
+}
+
 /// multishot read: each result's buffer id becomes one ReadBuf owning that slot; no buffer flag => empty ReadBuf
 #[kani::proof]
 #[kani::unwind(3)]
